@@ -94,6 +94,22 @@ harnesses! {
         assert!(colex_cmp(m.bs as u128, p2 as u128, 2, 4) != Ordering::Greater, "C10.min.le_window2");
         reach!(o == 30, "straddle");
     }
+    fn c10_q_seq_ord_after_truncate [8] {
+        // equal-length owned sequences, one shortened in place (stale bits past its end)
+        let w = any_words::<2>();
+        let src = arr::<Dna, 64, 2>(w);
+        let mut a = owned_cap(&src, 0, 5, 5);
+        a.truncate(3);
+        let b = owned_cap(&src, 20, 3, 3);
+        let (x, y) = (bits_at(&w, 0, 6) as u128, bits_at(&w, 40, 6) as u128);
+        let want = colex_cmp(x, y, 2, 3);
+        assert!(a.cmp(&b) == want, "C10.seq.cmp_is_colexicographic_after_truncate");
+        assert!(b.cmp(&a) == want.reverse(), "C10.seq.antisymmetric_after_truncate");
+        reach!(want == Ordering::Less, "less");
+        reach!(want == Ordering::Equal, "equal");
+        core::mem::forget(a);
+        core::mem::forget(b);
+    }
     fn c10_q_seq_dna_n1 [6] { seq_ord::<Dna>(1); }
     fn c10_q_seq_dna_n2 [6] { seq_ord::<Dna>(2); }
     fn c10_q_seq_dna_n4 [10] { seq_ord::<Dna>(4); }
